@@ -12,7 +12,7 @@
     * `newOctree` (every element list, every depth) builds a `Covers` tree whose elements are a
       permutation of the input.
 -/
-import PolyVerif.Lemmas.Tree
+import PolyVerif.Lemmas.TreeBuild
 
 namespace PolyVerif
 namespace C16
@@ -141,6 +141,188 @@ theorem rayElements_eq_scan (t : Oct Box (Elem ℝ)) (ht : Covers t) (o d : P3) 
   rw [pruned_eq_scan (fun (b : Box) (e : Elem ℝ) => BoxSub e.box b) _ _ _ t ht]
   intro b e hsub hacc
   simp [Tree.slab_mono hsub o d mn mx hacc]
+
+
+/-! ### best-first closest point -/
+
+/-- `OctTree.ClosestPoint` over any linearly ordered key: if every node's key is a lower bound for the keys of
+    the elements at or below it, the best-first search returns an element of minimal key together with that
+    element's closest point; it returns nothing only for a tree without elements.  (Which of several elements
+    of equal minimal key is returned is left open — "ties aside".) -/
+theorem closest_eq_scan_generic [LinearOrder K] (keyB : B → K) (cp : E → P) (keyP : P → K) (t : Oct B E)
+    (ht : Inv (fun b e => keyB b ≤ keyP (cp e)) t) :
+    match t.closest ltK keyB cp keyP with
+    | none => t.allElems = []
+    | some (e, pt) => e ∈ t.allElems ∧ pt = cp e ∧ ∀ e' ∈ t.allElems, keyP (cp e) ≤ keyP (cp e') := by
+  have h := bestFirst_spec keyB cp keyP (t.weight + 1) [Item.cell (keyB t.bounds) t]
+    (by intro i hi; simp only [List.mem_singleton] at hi; subst hi; exact ⟨rfl, ht⟩)
+    (by simp [Item.wt])
+  unfold Oct.closest
+  revert h
+  cases bestFirst ltK keyB cp keyP (t.weight + 1) [Item.cell (keyB t.bounds) t] with
+  | none =>
+    intro h
+    simp only [List.mem_singleton, forall_eq, Item.reps] at h
+    exact List.eq_nil_iff_forall_not_mem.mpr h
+  | some r =>
+    obtain ⟨e, pt⟩ := r
+    intro h
+    simp only [List.mem_singleton, exists_eq_left, forall_eq, Item.reps] at h
+    exact h
+
+/-- `Line3D.ClosestPointOnLine` returns an end point or a point `a + (b-a)·t` with `0 ≤ t ≤ 1` -/
+theorem seg_cp_cases (a b v : P3) :
+    (NewLine3D a b).ClosestPointOnLine v = b ∨ (NewLine3D a b).ClosestPointOnLine v = a ∨
+    ∃ t : ℝ, 0 ≤ t ∧ t ≤ 1 ∧ (NewLine3D a b).ClosestPointOnLine v = a.Add ((b.Sub a).Scale t) := by
+  simp only [Line3D.ClosestPointOnLine, NewLine3D, Nat.cast_one, Nat.cast_zero]
+  generalize (V3.Sub v a).Dot (V3.Sub b a).Normalized / (V3.Sub b a).Length = t
+  by_cases h1 : (1 : ℝ) ≤ t
+  · left; simp [h1]
+  · by_cases h0 : t ≤ 0
+    · right; left; simp [h1, h0]
+    · right; right
+      exact ⟨t, le_of_lt (not_le.mp h0), le_of_lt (not_le.mp h1), by simp [h1, h0]⟩
+
+/-- the closest point of each modelled element kind lies in the element's own bounding box -/
+theorem prim_closest_in_box (p : Prim ℝ) (v : P3)
+    (hbox : ∀ b, p = .box b → 0 ≤ b.extents.x ∧ 0 ≤ b.extents.y ∧ 0 ≤ b.extents.z) :
+    p.boundingBox.Contains (p.closestPoint v) = true := by
+  cases p with
+  | point q =>
+    rw [C17.aabb_contains_iff]
+    simp [Prim.boundingBox, Prim.closestPoint, NewAABB, AABB.Min, AABB.Max, V3.Sub, V3.Add, V3.Scale, V3.Zero]
+  | box b =>
+    obtain ⟨h1, h2, h3⟩ := hbox b rfl
+    exact C17.aabb_closestPoint_in_box b v h1 h2 h3
+  | seg a b =>
+    rw [C17.aabb_contains_iff]
+    have hmin : (aabbFromPoints2 a b).Min = ⟨min b.x a.x, min b.y a.y, min b.z a.z⟩ := by
+      simp only [aabbFromPoints2, NewAABB, AABB.Min, V3.Sub, V3.Add, V3.Scale, V3.New, RS.lit_eq]
+      congr 1 <;> push_cast <;> ring
+    have hmax : (aabbFromPoints2 a b).Max = ⟨max b.x a.x, max b.y a.y, max b.z a.z⟩ := by
+      simp only [aabbFromPoints2, NewAABB, AABB.Max, V3.Sub, V3.Add, V3.Scale, V3.New, RS.lit_eq]
+      congr 1 <;> push_cast <;> ring
+    simp only [Prim.boundingBox, Prim.closestPoint, hmin, hmax]
+    have between : ∀ (x y t : ℝ), 0 ≤ t → t ≤ 1 → min y x ≤ x + (y - x) * t ∧ x + (y - x) * t ≤ max y x := by
+      intro x y t h0 h1
+      rcases le_total x y with h | h
+      · rw [min_eq_right h, max_eq_left h]; constructor <;> nlinarith
+      · rw [min_eq_left h, max_eq_right h]; constructor <;> nlinarith
+    rcases seg_cp_cases a b v with h | h | ⟨t, t0, t1, h⟩ <;> rw [h]
+    · simp
+    · simp
+    · simp only [V3.Add, V3.Sub, V3.Scale]
+      have bx := between a.x b.x _ t0 t1
+      have b_y := between a.y b.y _ t0 t1
+      have bz := between a.z b.z _ t0 t1
+      exact ⟨bx.1, b_y.1, bz.1, bx.2, b_y.2, bz.2⟩
+
+/-- `OctTree.ClosestPoint` on a tree with `Covers`, whose elements' closest points lie in their boxes:
+    the returned index is that of an element minimising the (squared) distance to `v`, the returned point is that
+    element's closest point; `none` (Go: `-1`) only for a tree without elements. -/
+theorem closest_eq_scan (t : Oct Box (Elem ℝ)) (ht : Covers t) (v : P3)
+    (hprim : ∀ e ∈ t.allElems, e.box.Contains (e.prim.closestPoint v) = true) :
+    match closestPoint t v with
+    | none => t.allElems = []
+    | some (i, pt) => ∃ e ∈ t.allElems, e.id = i ∧ pt = e.prim.closestPoint v ∧
+        ∀ e' ∈ t.allElems, pt.DistanceSquared v ≤ (e'.prim.closestPoint v).DistanceSquared v := by
+  have hinv : Inv (fun (b : Box) (e : Elem ℝ) =>
+      (b.ClosestPoint v).DistanceSquared v ≤ (e.prim.closestPoint v).DistanceSquared v) t := by
+    refine Inv.imp (R := fun (b : Box) (e : Elem ℝ) => BoxSub e.box b)
+      (Q := fun e => e.box.Contains (e.prim.closestPoint v) = true) ?_ t ht hprim
+    intro b e hsub hq
+    exact aabb_lower_bound_aux b v _ (contains_mono hsub _ hq)
+  have h := closest_eq_scan_generic (fun (b : Box) => (b.ClosestPoint v).DistanceSquared v)
+    (fun (e : Elem ℝ) => e.prim.closestPoint v) (fun (pt : P3) => pt.DistanceSquared v) t hinv
+  have hlt : (fun (a b : ℝ) => decide (a < b)) = (ltK : ℝ → ℝ → Bool) := by
+    funext a b; simp only [ltK]
+  unfold closestPoint
+  rw [hlt]
+  revert h
+  cases Oct.closest ltK (fun (b : Box) => (b.ClosestPoint v).DistanceSquared v)
+    (fun (e : Elem ℝ) => e.prim.closestPoint v) (fun (pt : P3) => pt.DistanceSquared v) t with
+  | none => intro h; simpa using h
+  | some r =>
+    obtain ⟨e, pt⟩ := r
+    intro h
+    obtain ⟨h1, h2, h3⟩ := h
+    simp only [Option.map_some]
+    exact ⟨e, h1, rfl, h2, fun e' he' => by rw [h2]; exact h3 e' he'⟩
+
+
+/-! ### `newOctree` establishes the invariant -/
+
+theorem seg_box_min (a b : P3) : (aabbFromPoints2 a b).Min = ⟨min b.x a.x, min b.y a.y, min b.z a.z⟩ := by
+  simp only [aabbFromPoints2, NewAABB, AABB.Min, V3.Sub, V3.Add, V3.Scale, V3.New, RS.lit_eq]
+  congr 1 <;> push_cast <;> ring
+
+theorem seg_box_max (a b : P3) : (aabbFromPoints2 a b).Max = ⟨max b.x a.x, max b.y a.y, max b.z a.z⟩ := by
+  simp only [aabbFromPoints2, NewAABB, AABB.Max, V3.Sub, V3.Add, V3.Scale, V3.New, RS.lit_eq]
+  congr 1 <;> push_cast <;> ring
+
+/-- the bounding boxes of points and segments are well formed (contain their own corners) -/
+theorem prim_box_wf (p : Prim ℝ) (hbox : ∀ b, p = .box b → 0 ≤ b.extents.x ∧ 0 ≤ b.extents.y ∧ 0 ≤ b.extents.z) :
+    BoxSub p.boundingBox p.boundingBox := by
+  cases p with
+  | point q =>
+    constructor <;> rw [C17.aabb_contains_iff] <;>
+      simp [Prim.boundingBox, NewAABB, AABB.Min, AABB.Max, V3.Sub, V3.Add, V3.Scale, V3.Zero]
+  | seg a b =>
+    constructor <;> rw [C17.aabb_contains_iff] <;>
+      simp [Prim.boundingBox, seg_box_min, seg_box_max]
+  | box b =>
+    obtain ⟨h1, h2, h3⟩ := hbox b rfl
+    constructor <;> rw [C17.aabb_contains_iff] <;>
+      simp only [Prim.boundingBox, AABB.Min, AABB.Max, V3.Sub, V3.Add] <;>
+      refine ⟨?_, ?_, ?_, ?_, ?_, ?_⟩ <;> linarith
+
+theorem mem_mkElems {ps : List (Prim ℝ)} {e : Elem ℝ} (he : e ∈ mkElems ps) :
+    e.prim ∈ ps ∧ e.box = e.prim.boundingBox := by
+  simp only [mkElems, List.mem_map] at he
+  obtain ⟨⟨p, i⟩, hpi, rfl⟩ := he
+  exact ⟨(List.of_mem_zip hpi).1, rfl⟩
+
+/-- `build_covers`: for EVERY list of elements (with well-formed boxes) and EVERY depth — 0 and the automatic
+    depth included — `NewOctreeWithDepth` returns nil only for the empty list, and otherwise a tree that
+    satisfies `Covers` and stores each input element exactly once (a permutation of the input).
+    Octant assignment, depth cut-off and single-child collapse are those of the code. -/
+theorem build_covers (ps : List (Prim ℝ)) (depth : Nat)
+    (hwf : ∀ p ∈ ps, BoxSub p.boundingBox p.boundingBox) :
+    match newOctreeWithDepth ps depth with
+    | none => ps = []
+    | some t => Covers t ∧ t.allElems.Perm (mkElems ps) := by
+  have h := build_spec (Elem.box (α := ℝ)) depth (mkElems ps)
+    (fun e he => by
+      obtain ⟨h1, h2⟩ := mem_mkElems he
+      rw [h2]; exact hwf _ h1)
+  unfold newOctreeWithDepth Covers
+  revert h
+  cases build Elem.box depth (mkElems ps) with
+  | none =>
+    intro h
+    simp only [mkElems, List.map_eq_nil_iff, List.zip_eq_nil_iff, List.range_eq_nil,
+      List.length_eq_zero_iff, or_self] at h
+    exact h
+  | some t => exact id
+
+example : ∀ p ∈ [Prim.point (⟨0, 0, 0⟩ : P3), Prim.seg ⟨1, 2, 3⟩ ⟨0, 5, 1⟩], BoxSub p.boundingBox p.boundingBox := by
+  intro p _; exact prim_box_wf p (by intro b hb; simp_all)
+
+/-- End to end, for the trees the code builds: each pruned query answers a permutation of the exhaustive scan
+    over the INPUT list (element `i` of the input has index `i`). -/
+theorem octree_queries_eq_scan_of_input (ps : List (Prim ℝ)) (depth : Nat)
+    (hwf : ∀ p ∈ ps, BoxSub p.boundingBox p.boundingBox) (t : Oct Box (Elem ℝ))
+    (ht : newOctreeWithDepth ps depth = some t) (v o d : P3) (r mn mx : ℝ) :
+    (elementsContainingPoint t v).Perm (((mkElems ps).filter (fun e => e.box.Contains v)).map Elem.id) ∧
+    (elementsWithinRange t v r).Perm
+      (((mkElems ps).filter (fun e => decide ((e.box.ClosestPoint v).Distance v ≤ r))).map Elem.id) ∧
+    (elementsIntersectingRay t o d mn mx).Perm
+      (((mkElems ps).filter (fun e => intersectsRayInRange e.box o d mn mx)).map Elem.id) := by
+  have h := build_covers ps depth hwf
+  rw [ht] at h
+  obtain ⟨hc, hp⟩ := h
+  rw [containing_eq_scan t hc, withinRange_eq_scan t hc, rayElements_eq_scan t hc]
+  exact ⟨(hp.filter _).map _, (hp.filter _).map _, (hp.filter _).map _⟩
 
 /-- a tree satisfying `Covers` in which pruning actually matters (two leaves under one root) -/
 noncomputable def exTree : Oct Box (Elem ℝ) :=
